@@ -35,6 +35,10 @@ type params struct {
 	// subscriber that is busy (does not read its channel) during a window of blocks, then reads everything pending.
 	// Every announced epoch must still arrive exactly once (the order of delivery is the hub's business and not judged).
 	Hub bool
+	// Burst: a window of consecutive blocks reaches the notifier as a burst — their events are all pending on the block
+	// channel (one sender goroutine each, queued in block order, as the block notifier's hub does) before the notifier
+	// reads: either before it is started, or while it is held inside Publish by a slow subscriber.
+	Burst bool
 }
 
 type fakeBlocks struct {
@@ -55,6 +59,9 @@ type ev struct {
 type recorder struct {
 	fb     *fakeBlocks
 	events []ev
+	hold   chan struct{} // non-nil: Publish blocks until it is closed (a slow synchronous subscriber)
+	p      params
+	burst  bool
 }
 
 func (r *recorder) Subscribe(string) <-chan types.EpochEvent { return make(chan types.EpochEvent) }
@@ -63,7 +70,14 @@ func (r *recorder) Publish(e types.EpochEvent) {
 	if x, ok := e.ExtraInfo.(*aggsender.ExtraInfoEventEpoch); ok && x != nil {
 		p = x.PendingBlocks
 	}
-	r.events = append(r.events, ev{e.Epoch, r.fb.cur, p})
+	at := r.fb.cur
+	if r.burst && p >= 0 {
+		at = epochStart(r.p, e.Epoch+1) - uint64(p) // the block the event was published at, from its own "pending blocks" field
+	}
+	r.events = append(r.events, ev{e.Epoch, at, p})
+	if h := r.hold; h != nil {
+		<-h
+	}
 }
 
 func units(tier string) []mc.Unit {
@@ -96,6 +110,14 @@ func units(tier string) []mc.Unit {
 					continue
 				}
 				us = append(us, mc.Unit{Name: fmt.Sprintf("status:len=%d,start=%d,pct=%d", l, s, pct), Params: params{Len: l, Start: s, Pct: pct, Status: true}})
+			}
+		}
+	}
+	// bursts of block events
+	for l := uint64(1); l <= 4; l++ {
+		for _, s := range []uint64{0, 5} {
+			for _, pct := range []uint{0, 25, 50, 75, 90, 99} {
+				us = append(us, mc.Unit{Name: fmt.Sprintf("burst:len=%d,start=%d,pct=%d", l, s, pct), Params: params{Len: l, Start: s, Pct: pct, Burst: true}})
 			}
 		}
 	}
@@ -206,6 +228,11 @@ func runInBubble(c *mc.Ctx, u mc.Unit) {
 	}
 	ctx, cancel := context.WithCancel(context.Background())
 	done := make(chan struct{})
+	if p.Burst {
+		rec.burst, rec.p = true, p
+		runBurst(c, p, fb, rec, func() { go func() { n.Start(ctx); close(done) }() }, func() { cancel(); <-done })
+		return
+	}
 	go func() { n.Start(ctx); close(done) }()
 	feed := func(b uint64) {
 		fb.cur = b
@@ -355,6 +382,79 @@ func runInBubble(c *mc.Ctx, u mc.Unit) {
 	}
 }
 
+// runBurst: see params.Burst. Every block of three epochs is delivered, in order; the blocks of one window arrive as a burst.
+func runBurst(c *mc.Ctx, p params, fb *fakeBlocks, rec *recorder, start func(), stop func()) {
+	var blocks []uint64
+	for b := p.Start + 1; b <= p.Start+3*p.Len; b++ {
+		blocks = append(blocks, b)
+	}
+	K := len(blocks)
+	from := c.Choose(K-1, "burst-from-block")
+	m := 2 + c.Choose(K-from-1, "burst-length")
+	send := func(b uint64) { // one queued sender per event, in block order
+		go func() { fb.ch <- types.EventNewBlock{BlockNumber: b} }()
+		synctest.Wait()
+	}
+	started := false
+	if from > 0 {
+		start()
+		started = true
+		synctest.Wait()
+	}
+	for i := 0; i < K; {
+		switch {
+		case i == from && !started:
+			// the block notifier was up before the epoch notifier: its first events are already waiting
+			for _, b := range blocks[i : i+m] {
+				send(b)
+			}
+			start()
+			started = true
+			synctest.Wait()
+			c.Witness("bursts_pending_before_the_notifier_started")
+			i += m
+		case i+1 == from:
+			// the subscriber is slow: if this block is announced the notifier stays inside Publish while the burst queues up
+			hold := make(chan struct{})
+			rec.hold = hold
+			send(blocks[i])
+			for _, b := range blocks[from : from+m] {
+				send(b)
+			}
+			rec.hold = nil
+			close(hold)
+			synctest.Wait()
+			c.Witness("bursts_queued_behind_a_block_in_progress")
+			i = from + m
+		default:
+			send(blocks[i])
+			i++
+		}
+		c.Transition(1)
+	}
+	synctest.Wait()
+	stop()
+	var want []ev
+	last := uint64(0)
+	for _, b := range blocks {
+		if e := epochOf(p, b); qualifies(p, b) && e > last {
+			want = append(want, ev{e, b, int(epochStart(p, e+1) - b)})
+			last = e
+		}
+	}
+	c.Obs("burst blocks[%d:%d] of %v events=%v", from, from+m, blocks, rec.events)
+	c.NonTrivial()
+	if fmt.Sprint(want) != fmt.Sprint(rec.events) {
+		key := "burst/wrong-notification"
+		if len(rec.events) < len(want) {
+			key = "burst/missing-notification"
+		} else if len(rec.events) > len(want) {
+			key = "burst/extra-notification"
+		}
+		c.Failf(key, "cfg %+v blocks %v, blocks[%d:%d] delivered as a burst: want (epoch,atBlock,pending) %v, got %v", p, blocks, from, from+m, want, rec.events)
+	}
+}
+
 func main() {
 	mc.Main(mc.Spec{
 		ID: "C18", Level: "model_checking",
@@ -375,6 +475,7 @@ func main() {
 			"(start, start+3*len] is fed in increasing order to the real notifier goroutine (one choice point per block); " +
 			"sweep units (long epochs): per epoch one of 5 arrival patterns around the first qualifying block (all blocks / exactly it / its two neighbours / only its predecessor / none); " +
 			"status units: every block of 3 epochs is a candidate, choice points per block = skip it / call GetEpochStatus() first while the block notifier already reports this block or the newest block; explored up to 2 (thorough 3) deviations from 'feed everything, no query'; " +
+			"burst units: every block of 3 epochs is delivered in order, one window of them (every start, every length >= 2) as a burst of events already pending on the block channel — before the notifier is started, or queued behind a block whose Publish a slow subscriber holds; the notifications must be those of the one-by-one delivery; " +
 			"hub units: every block of 3 epochs is fed through the real default hub; the subscriber does not read during a window of blocks (every start and length), then reads everything pending: each announced epoch must arrive exactly once; " +
 			"non-trivial = at least one block fed; distinct = distinct (unit, fed sequence, events) observations",
 		Assumptions: []string{
